@@ -9,7 +9,9 @@ dune/common/math.hh and fvector.hh.   Core Lean only.
 * `power`, `factorial`, `binomial` over `Int` with an explicit machine-width check `chk` on **every**
   intermediate value (result `none` = some intermediate is not representable in the C++ type);
   `binomial` is the code after `fixes/C17_binomial_overflow.patch`; `binomialOld` is the algorithm of the
-  unrepaired tree, kept to state the defect; `round` is the code after `fixes/C17_round_unsigned.patch`, `trunc` after `fixes/C17_trunc_large.patch`;
+  unrepaired tree, kept to state the defect; `round` is the code after `fixes/C17_round_unsigned.patch` and
+  `fixes/C17_round_range_end.patch` (`roundDownOld`: before the latter), `trunc` after `fixes/C17_trunc_large.patch`;
+  `roundM` / `truncM`: the same with the integer target type explicit (what the driver executes);
 * `sign`; the classifiers `isNaN / isInf / isFinite / isUnordered` over `FieldVector` and `std::complex`.
 -/
 import DuneVerif.Gen.C17
@@ -49,9 +51,13 @@ def uint8 : IType := ⟨false, 8⟩
 def uint16 : IType := ⟨false, 16⟩
 
 /-- a value stored in a variable of type `I`: unsigned arithmetic is arithmetic modulo `2^bits` (`lower--` on an
-    unsigned `0` gives the largest value of the type); for a signed `I` the value is kept (overflow is undefined
-    behaviour, outside the domain of the model) -/
-def IType.wrap (t : IType) (x : Int) : Int := if t.signed then x else x % (2 ^ t.bits : Int)
+    unsigned `0` gives the largest value of the type); the types narrower than `int` compute in `int` and the conversion
+    back to a signed narrow type is modular as well (`(signed char)128` is -128; defined since C++20, before that the
+    choice of every compiler); for `int` and wider signed types the value is kept (overflow is undefined behaviour,
+    outside the domain of the model) -/
+def IType.wrap (t : IType) (x : Int) : Int :=
+  if t.signed then (if t.bits < 32 then (x + 2 ^ (t.bits - 1)) % (2 ^ t.bits : Int) - 2 ^ (t.bits - 1) else x)
+  else x % (2 ^ t.bits : Int)
 
 /-- the value of the *expression* `lower + 1` for `lower` of type `I`: types narrower than `int` are promoted to `int`
     (no wrap-around: `(unsigned char)255 + 1` is the `int` 256), the others are computed in `I` -/
@@ -103,23 +109,28 @@ def leVec (s : Style) (a b : List K) (e : K) : Bool := lexLt a b || eqVec s a b 
 def neFV (s : Style) (a b : List K) (e : K) : Bool := !(eqFV s a b e)
 
 /-! ### round / trunc   (`tr` is the C++ conversion `I(val)`, the cast `((i : Int) : K)` is `T(i)`) -/
-variable [IntCast K]
+variable [IntCast K] [Add K]
 
-/-- `round_t<I, T, cstyle, downward>::round` (after fixes/C17_round_unsigned.patch: the distance to the integer
-    below is `val - (T(upper) - T(1))`).  The integer variables are mathematical integers; for an unsigned `I` and
-    `val` in (-1,0) the C++ `lower` wraps around to the largest value of `I`, which stands for `-1` here. -/
+/-- `round_t<I, T, cstyle, downward>::round` after fixes/C17_round_unsigned.patch and fixes/C17_round_range_end.patch:
+    `I(val)` is the neighbour of `val` on the side of zero; the distances to the two neighbours are computed in `T`
+    from `T(I(val))`, and the other neighbour is computed in `I` only when it is the result.  The integers are
+    mathematical integers here (`roundDownM`: reduced as the type does). -/
 def roundDown (s : Style) (tr : K → Int) (val eps : K) : Int :=
   let lower := tr val
   if eqS s (lower : K) val eps then lower else
-  let lu : Int × Int := if (lower : K) > val then (lower - 1, lower) else (lower, lower + 1)
-  if leS s (val - ((lu.2 : K) - ((1 : Int) : K))) ((lu.2 : K) - val) eps then lu.1 else lu.2
+  if (lower : K) > val then
+    (if leS s (val - ((lower : K) - ((1 : Int) : K))) ((lower : K) - val) eps then lower - 1 else lower)
+  else
+    (if leS s (val - (lower : K)) (((lower : K) + ((1 : Int) : K)) - val) eps then lower else lower + 1)
 
 /-- `round_t<I, T, cstyle, upward>::round` -/
 def roundUp (s : Style) (tr : K → Int) (val eps : K) : Int :=
   let lower := tr val
   if eqS s (lower : K) val eps then lower else
-  let lu : Int × Int := if (lower : K) > val then (lower - 1, lower) else (lower, lower + 1)
-  if ltS s (val - ((lu.2 : K) - ((1 : Int) : K))) ((lu.2 : K) - val) eps then lu.1 else lu.2
+  if (lower : K) > val then
+    (if ltS s (val - ((lower : K) - ((1 : Int) : K))) ((lower : K) - val) eps then lower - 1 else lower)
+  else
+    (if ltS s (val - (lower : K)) (((lower : K) + ((1 : Int) : K)) - val) eps then lower else lower + 1)
 
 def round (s : Style) : RStyle → (K → Int) → K → K → Int
   | .downward, tr, val, eps => roundDown s tr val eps
@@ -164,14 +175,27 @@ expression `T(lower+1)` evaluated after the integral promotions (`IType.arith`).
 def roundDownM (t : IType) (s : Style) (tr : K → Int) (val eps : K) : Int :=
   let lower := tr val
   if eqS s (lower : K) val eps then lower else
-  let lu : Int × Int := if (lower : K) > val then (t.wrap (lower - 1), lower) else (lower, t.wrap (lower + 1))
-  if leS s (val - ((lu.2 : K) - ((1 : Int) : K))) ((lu.2 : K) - val) eps then lu.1 else lu.2
+  if (lower : K) > val then
+    (if leS s (val - ((lower : K) - ((1 : Int) : K))) ((lower : K) - val) eps then t.wrap (lower - 1) else lower)
+  else
+    (if leS s (val - (lower : K)) (((lower : K) + ((1 : Int) : K)) - val) eps then lower else t.wrap (lower + 1))
 
 def roundUpM (t : IType) (s : Style) (tr : K → Int) (val eps : K) : Int :=
   let lower := tr val
   if eqS s (lower : K) val eps then lower else
+  if (lower : K) > val then
+    (if ltS s (val - ((lower : K) - ((1 : Int) : K))) ((lower : K) - val) eps then t.wrap (lower - 1) else lower)
+  else
+    (if ltS s (val - (lower : K)) (((lower : K) + ((1 : Int) : K)) - val) eps then lower else t.wrap (lower + 1))
+
+/-- the downward rounding before fixes/C17_round_range_end.patch (kept to state the defect): `upper = lower+1` is stored in
+    an `I` variable and converted back to `T` for the distances, so for `val` beyond the largest value of `I` the distances
+    are computed from the wrapped-around `upper` -/
+def roundDownOldM (t : IType) (s : Style) (tr : K → Int) (val eps : K) : Int :=
+  let lower := tr val
+  if eqS s (lower : K) val eps then lower else
   let lu : Int × Int := if (lower : K) > val then (t.wrap (lower - 1), lower) else (lower, t.wrap (lower + 1))
-  if ltS s (val - ((lu.2 : K) - ((1 : Int) : K))) ((lu.2 : K) - val) eps then lu.1 else lu.2
+  if leS s (val - ((lu.2 : K) - ((1 : Int) : K))) ((lu.2 : K) - val) eps then lu.1 else lu.2
 
 def roundM (t : IType) (s : Style) : RStyle → (K → Int) → K → K → Int
   | .downward, tr, val, eps => roundDownM t s tr val eps
